@@ -72,22 +72,13 @@ impl<T> Clone for Sender<T> {
 // opaque external / crate types that the copied structs mention
 #[verifier::external_body] pub struct Poll { x: u8 }
 #[verifier::external_body] pub struct MioUdpSocket { x: u8 }
-#[verifier::external_body] pub struct PktInfoUdpSocket { x: u8 }
-#[verifier::external_body] pub struct SocketAddr { x: u8 }
-#[verifier::external_body] pub struct Interface { x: u8 }
-#[verifier::external_body] pub struct IfAddr { x: u8 }
 #[verifier::external_body] pub struct ScopedIp { x: u8 }
 #[verifier::external_body] pub struct ResolvedService { x: u8 }
 #[verifier::external_body] pub struct DaemonEvent { x: u8 }
 #[verifier::external_body] pub struct DaemonOption { x: u8 }
 #[verifier::external_body] pub struct DaemonOptionVal { x: u8 }
 #[verifier::external_body] pub struct IfPredicate { x: u8 }
-#[verifier::external_body] pub struct DnsRegistry { x: u8 }
-#[verifier::external_body] pub struct ServiceInfo { x: u8 }
 #[verifier::external_body] pub struct DnsRecordIntf { x: u8 }
-#[verifier::external_type_specification]
-#[verifier::external_body]
-pub struct ExIpAddr(IpAddr);
 
 // std::time::Duration (only as_millis is used by the code under proof)
 #[verifier::external_body]
